@@ -7,7 +7,8 @@ import time
 import multiprocessing as mp
 import z3
 
-Z3_TIMEOUT_MS = int(os.environ.get('VERIF_Z3_TIMEOUT_MS', '150000'))
+Z3_TIMEOUT_MS = int(os.environ.get('VERIF_Z3_TIMEOUT_MS', '150000'))     # last resort budget
+Z3_FAST_MS = int(os.environ.get('VERIF_Z3_FAST_MS', '20000'))            # first pass; cvc5 takes what this leaves open
 CVC5_TIMEOUT_S = int(os.environ.get('VERIF_CVC5_TIMEOUT_S', '240'))
 CVC5 = '/usr/bin/cvc5'
 
@@ -137,7 +138,7 @@ def discharge(obligations, cvc5_all=False, seed=0, parallel=True, grouped=True):
             continue
         text = to_smt2(ob.facts, ob.goal)
         texts[i] = text
-        jobs.append((i, text, Z3_TIMEOUT_MS, seed))
+        jobs.append((i, text, Z3_FAST_MS, seed))
     if jobs:
         if parallel and len(jobs) > 3:
             results = pool().map(_solve_z3, jobs, chunksize=max(1, len(jobs) // 64))
@@ -169,6 +170,16 @@ def discharge(obligations, cvc5_all=False, seed=0, parallel=True, grouped=True):
                 elif res in ('sat', 'unsat'):
                     v.backend = 'z3+cvc5'
                 v.time_s += t
+    # last resort: what both solvers left open gets z3 again with the long budget
+    ljobs = [(i, texts[i], Z3_TIMEOUT_MS, seed + 1) for i in texts if verdicts[i].result in ('unknown', 'error')
+             and 'disagreement' not in (verdicts[i].reason or '')]
+    if ljobs:
+        lres = pool().map(_solve_z3, ljobs) if (parallel and len(ljobs) > 1) else [_solve_z3(j) for j in ljobs]
+        for idx, res, t, reason in lres:
+            v = verdicts[idx]
+            v.time_s += t
+            if res in ('sat', 'unsat'):
+                v.result, v.backend, v.reason = res, 'z3', ''
     return verdicts
 
 
